@@ -143,9 +143,13 @@ func VerifLemma_C11A_ImagePathFilter() {
 	for i := range paths {
 		paths[i] = vgNondetPathValue(n)
 	}
+	nx := verifParam("NX") // bound for the exclude prefixes; 0 = same as N
+	if nx == 0 {
+		nx = n
+	}
 	excludes := make([]string, ne)
 	for i := range excludes {
-		excludes[i] = vgNondetPathValue(n)
+		excludes[i] = vgNondetPathValue(nx)
 	}
 	// documented preconditions
 	for i, p := range paths {
